@@ -18,6 +18,7 @@ import (
 	"strconv"
 	"strings"
 	"sync"
+	"sync/atomic"
 	"time"
 
 	"github.com/google/pprof/internal/driver"
@@ -239,6 +240,7 @@ type c09Run struct {
 	Err      error
 	Panic    string // recovered panic value + stack ("" if none)
 	Hang     bool
+	HangSite string // where the hung call is stuck (outermost function of the innermost pprof package)
 	Handlers map[string]http.Handler
 }
 
@@ -256,6 +258,10 @@ func c09PProfB(p *profile.Profile, bases []*profile.Profile, flags []string, lin
 	defer c09InprocMu.Unlock()
 	ui := newC09UI(lines)
 	r := &c09Run{UI: ui, W: &c09Writer{ui: ui}, Obj: &c09Obj{}}
+	if c09Poisoned.Load() {
+		r.Hang, r.HangSite = true, "after-earlier-hang"
+		return r
+	}
 	done := make(chan struct{})
 	go func() {
 		defer close(done)
@@ -279,9 +285,28 @@ func c09PProfB(p *profile.Profile, bases []*profile.Profile, flags []string, lin
 	select {
 	case <-done:
 	case <-time.After(c09InprocTimeout):
-		r.Hang = true
+		r.Hang, r.HangSite = true, c09GoroutineSite("c09PProfB.func1")
+		c09Poisoned.Store(true)
 	}
 	return r
+}
+
+// c09Poisoned: an in-process call did not return. Its goroutine is still inside the driver and may
+// hold the driver's locks for ever (e.g. a leaked config mutex), so every later in-process call
+// would block too: they are answered with Hang at once instead of waiting for the watchdog each time.
+var c09Poisoned atomic.Bool
+
+// c09GoroutineSite finds the goroutine whose stack contains the frame `marker` and names the place
+// where it is stuck.
+func c09GoroutineSite(marker string) string {
+	buf := make([]byte, 8<<20)
+	n := runtime.Stack(buf, true)
+	for _, blk := range strings.Split(string(buf[:n]), "\n\n") {
+		if strings.Contains(blk, marker) {
+			return c09HangSite(blk)
+		}
+	}
+	return "unknown"
 }
 
 var c09FrameRx = regexp.MustCompile(`github\.com/google/pprof/((?:internal/|profile|driver)[\w./]*?)\.((?:\(\*?\w+\)\.)?\w+)`)
@@ -305,6 +330,9 @@ func c09Serve(h http.Handler, path, rawQuery string) (status int, body string, p
 	rec := httptest.NewRecorder()
 	req := &http.Request{Method: "GET", URL: &url.URL{Path: path, RawQuery: rawQuery}, Header: http.Header{}, Host: "localhost",
 		RemoteAddr: "127.0.0.1:1", Proto: "HTTP/1.1", ProtoMajor: 1, ProtoMinor: 1, Body: http.NoBody}
+	if c09Poisoned.Load() {
+		return 0, "", "", true
+	}
 	done := make(chan struct{})
 	go func() {
 		defer close(done)
@@ -318,6 +346,7 @@ func c09Serve(h http.Handler, path, rawQuery string) (status int, body string, p
 	select {
 	case <-done:
 	case <-time.After(c09InprocTimeout):
+		c09Poisoned.Store(true)
 		return 0, "", "", true
 	}
 	return rec.Code, rec.Body.String(), panicked, false
@@ -355,6 +384,16 @@ func c09ServeSite(h http.Handler, path, rawQuery string) (status int, body strin
 // c09HangSite names a hang by the outermost function of the innermost pprof package on the stack
 // (the innermost frame itself varies from sample to sample inside a loop).
 func c09HangSite(trace string) string {
+	// a goroutine that is blocked (mutex, channel, select, I/O) sits at one fixed place: name that
+	// place (innermost pprof frame); only for a running goroutine the innermost frame varies
+	if i := strings.Index(trace, "["); i >= 0 && strings.HasPrefix(strings.TrimSpace(trace), "goroutine ") {
+		if j := strings.IndexAny(trace[i:], "]\n"); j > 0 {
+			state := trace[i+1 : i+j]
+			if !strings.HasPrefix(state, "running") && !strings.HasPrefix(state, "runnable") {
+				return c09PanicSite(trace) + "/blocked"
+			}
+		}
+	}
 	site, pkg := "unknown", ""
 	for _, ln := range strings.Split(trace, "\n") {
 		if strings.HasPrefix(ln, "\t") || strings.Contains(ln, "zzverif") {
